@@ -462,7 +462,33 @@ def add_custom_columns(rng: random.Random, form: dict, hostile: bool = False) ->
             rng.choice(cands)["save_to"] = rng.choice(["prop_a", "height"])
         info["custom"].append("entities")
     if hostile:
-        kind = rng.choice(["badname", "unbound", "control", "weirdname"])
+        kind = rng.choice(["badname", "unbound", "control", "weirdname", "decl", "reserved", "linebreak"])
+        if kind == "decl":
+            # namespace declarations no parser accepts: a prefix for the empty namespace, the reserved prefixes and namespace names
+            settings["namespaces"] = rng.choice(['f=""', "f=''", 'xmlns="http://x"', 'xml="http://x"', 'f="http://www.w3.org/XML/1998/namespace"',
+                                                 'f="http://www.w3.org/2000/xmlns/"', 'ex="http://example.com/x" g=""'])
+            info["hostile"].append(("decl", settings["namespaces"]))
+            kind = None
+        if kind == "reserved" and qrows:
+            r = rng.choice(qrows)
+            col = rng.choice(["bind::xmlns:f", "instance::xmlns:xml", "body::xmlns:xmlns", "bind::xmlns", "instance::xml:lang", "instance::xmlns:g"])
+            r[col] = rng.choice(["http://x", "", "http://www.w3.org/XML/1998/namespace", "http://www.w3.org/2000/xmlns/", "en"])
+            if rng.random() < 0.3:
+                r2 = rng.choice(qrows)
+                if not any(("${" + r2["name"] + "}") in str(v) for rows in form.values() for row in rows for v in row.values()):
+                    r2["name"] = rng.choice(["xmlns:q", "xml:q", "xmlns"])
+            info["hostile"].append(("reserved", col))
+            kind = None
+        if kind == "linebreak" and qrows:
+            # with clean_text_values=no a cell keeps its trailing line break; the entities sheet is never cleaned
+            settings["clean_text_values"] = "no"
+            r = rng.choice(qrows)
+            if not any(("${" + r["name"] + "}") in str(v) for rows in form.values() for row in rows for v in row.values()):
+                r["name"] = r["name"] + "\n"
+            if "entities" in form and rng.random() < 0.7:
+                form["entities"][0]["dataset"] = form["entities"][0].get("dataset", "trees") + "\n"
+            info["hostile"].append(("linebreak", r["name"]))
+            kind = None
         if kind == "weirdname" and qrows:
             r = rng.choice(qrows)
             old = r["name"]
